@@ -29,6 +29,15 @@ def gw(pid, design, text):
     return dict(level="model_checking", design=design, text=text, note=GW_NOTE,
                 technique="TLC model checking of Gateway.tla (GatewayMC.tla focus runs) + replay of TLC behaviours into the real "
                           "Gateway + TLC trace validation of recorded executions (GatewayTrace.tla)")
+CHECKS["C09"] = dict(level="model_checking", design="5 C09",
+   text="Ota.tla states what an OTA server must serve (0xFF padding of at most one page to a multiple of 128, 16-byte blocks, "
+        "little-endian words, CRC-16/MODBUS defined bit by bit). TLC checks the spec's arithmetic for every length 1..400 and then acts "
+        "as the independent oracle: images written as Intel-HEX by the harness' own encoder are scheduled with update_fw and fetched "
+        "through Gateway.logic by 1-3 nodes in shuffled order with repetitions; image bytes, load_fw result, every config and block "
+        "response are validated by TLC (CRC recomputed in TLA+, block slices, echoed type/version/index).",
+   note="Trusts TLC + CommunityModules Bitwise, harness/ihex.py (encoder) and the hex-word parser. Lengths sampled around every 16/128 "
+        "boundary up to 32768 (thorough: every length to 2200); Intel-HEX dialects other than the encoder's are not covered.",
+   technique="TLC model checking of Ota.tla + TLC validation of recorded OTA conversations (OtaTrace.tla, CRC in TLA+)")
 CHECKS.update({
  "C06": gw("C06", "5 C06", "Id allocation is the freedom point HIdReq(ch.id) with guard id in 1..MaxId minus (known nodes and every id issued before - a history "
         "variable that survives restarts); TLC explores id requests, presentations of ids 0..5/255, ticks and stop/restart (MaxId=4) "
